@@ -67,3 +67,6 @@ _E3_NOTE = "Trusted: the strict netfilter fakes (rules listed in DESIGN.md §3 E
 TEXTS["C14"] = {"engine": "netsim", "design_ref": "DESIGN.md §4 C14", "level_note": _E3_NOTE,
     "technique": "property-based testing (rapid): inverse and convergence laws over generated port sets and prior NAT tables on a strict iptables fake, bind() probes on real sockets",
     "level_text": "Inverse (Setup;Clean), convergence (from-anything == from-empty), idempotence and frame laws are checked for every generated port set and prior table; port holding is probed with real sockets."}
+TEXTS["C15"] = {"engine": "netsim", "design_ref": "DESIGN.md §4 C15", "level_note": _E3_NOTE,
+    "technique": "metamorphic property testing (rapid): from-anything == from-empty convergence, idempotence, frame and reference-validity on strict netfilter fakes",
+    "level_text": "The real policy manager is driven over generated state pairs, event permutations and prior kernel garbage; the strict fakes reject what the kernel rejects."}
